@@ -267,9 +267,30 @@ def g_nest(spec, r):
         yield "nest", r.choice([b"", b"q ", b"lorem ipsum "]) + core, None
 
 
+RU_UNITS = [b"\\", b"\\\\", b'"', b"'", b"a", b"^", b"(", b")", b"%41", b"&#65;", b"/", b"../", b".", b"@", b"A=", b"0,", b"0x41,", b" ", b"\r\n",
+            b"_", b"+", b'""', b'`"', b"a.", b"-", b"cmd ", b"\x00\x00", b"a\x00", b"'' ", b"\\\"", b"aA", b"=", b"&", b"[", b"{", b"<", b":", b";"]
+RU_COUNTS = [8, 16, 24, 28, 32, 48, 64, 200, 800]
+RU_PREFIX = [b"", b'"', b"'", b"http://", b"cmd /c ", b"powershell ", b"x@", b'"a" + "', b"unescape('", b"\\\\", b"reverse(\"", b"CreateObject(",
+             b"atob(\"", b"'a' -replace '"]
+RU_SUFFIX = [b"", b'"', b"'", b")", b" x", b"\")", b".com"]
+
+
+def g_repeatunit(spec, r):
+    """Regex stress: a unit repeated n times between trigger prefixes / suffixes (catastrophic backtracking shows as a hang)."""
+    idx = 0
+    for unit in RU_UNITS:
+        for pre in RU_PREFIX:
+            for suf in RU_SUFFIX:
+                for n in RU_COUNTS:
+                    idx += 1
+                    if idx % spec.get("nshards", 1) != spec.get("shard", 0):
+                        continue
+                    yield "repeatunit", (pre + unit * n + suf)[: base.MAX_INPUT], None
+
+
 GENERATORS = {
     "skel": g_skel, "xor": g_xor, "cmd": g_cmd, "pe": g_pe, "xorbytes": g_xorbytes, "matryoshka": g_matryoshka,
-    "nesting": g_nesting, "seedmut": g_seedmut, "soup": g_soup, "large": g_large, "repeat": g_repeat, "url": g_url, "ioc": g_ioc, "layer": g_layer, "ctxdec": g_ctxdec, "nest": g_nest,
+    "nesting": g_nesting, "seedmut": g_seedmut, "soup": g_soup, "large": g_large, "repeat": g_repeat, "url": g_url, "ioc": g_ioc, "layer": g_layer, "ctxdec": g_ctxdec, "nest": g_nest, "repeatunit": g_repeatunit,
 }
 
 
